@@ -3,7 +3,7 @@
 # compiles, passes the existing suite, and that its demonstration fails with the change and passes without it.
 # Writes <seed dir>/confirm.json. Uses one persistent scratch worktree (/tmp/confirm_wt) so builds are incremental.
 set -u
-D="$1"; WT=/tmp/confirm_wt
+D=$(readlink -f "$1"); WT=/tmp/confirm_wt
 if [ ! -d "$WT" ]; then git -C /repo worktree add --detach "$WT" HEAD >/dev/null 2>&1; fi
 cd "$WT" && git checkout -q --detach "$(git -C /repo rev-parse HEAD)" && git checkout -q -- . && git clean -fdq rs-matter/tests
 NAME=$(basename "$D" | tr 'A-Z-' 'a-z_')
